@@ -255,6 +255,14 @@ class Sim:
 
     def transmit(self, x, data, addr, now):
         peer = self.peer(x)
+        mute = self.cfg.get("mute_client_after")
+        if mute is not None and x == "c" and now < self.adv_end:
+            # a client that falls silent (or whose address was spoofed) after its first datagrams
+            self.stats["dgram-sent:c"] += 1
+            if self.stats["dgram-sent:c"] > mute:
+                self.stats["muted-drop"] += 1
+                self.dropped_datagrams.append((x, now))
+                return
         if self.blackout is not None and now >= self.blackout:
             self.stats["blackout-drop"] += 1
             return
